@@ -10,7 +10,7 @@ TIMEOUT = {"quick": 900, "thorough": 3000}
 MIN_EVALUATIONS = {"quick": 12000, "thorough": 12000}  # fewer oracle evaluations than this means the workload collapsed: inconclusive
 RULE = ("read()/write() calls of 1-40 requests mixing VALID requests (judged as in C01/C02) with INVALID ones of exactly the classes the "
         "statement lists {unknown tag, unknown member (named or numeric), member of an atomic, index out of range (just beyond the dimension and at 255/256, "
-        "65535/65536, 2^31, 2^32-1, 2^32, 10^20), count out of range, unencodable value, "
+        "65535/65536, 2^31, 2^32-1, 2^32, 10^20), count out of range (beyond the array, beyond 16 bits, negative), unencodable value, "
         "too-short value list (also a scalar / None for a {n} request), misaligned BOOL-array write, controller error status forced by the target (tabled and untabled general statuses, extended words inside / outside the library's tables, none, two)} (a third of the write calls also repeat one of their valid bit writes once or twice: each occurrence is a request of its own) at every position class (first/"
         "last/all/alternating/random), with sizes that spread the requests over several multi-service packets, fragmented transfers and "
         "bit-write groups, on every controller configuration; oracle: arity/shape (single Tag iff n=1), i-th Tag answers the i-th request "
@@ -67,8 +67,8 @@ def gen_invalid(sc, rng, for_write):
             return Bad(f"{t.full_name}[{','.join(map(str, idx))}]", c, v)
         if c == "count-out-of-range" and t.dims and t.dtype.name != "DWORD" and rng.random() < 0.3:
             # far out of range: counts at and beyond what the 16-bit element-count field of the tag services can carry
-            n = rng.choice([65535, 65536, 65537, 70000, 1 << 31, 1 << 32, 10 ** 20])
-            n = max(n, t.elements + 1)
+            n = rng.choice([65535, 65536, 65537, 70000, 1 << 31, 1 << 32, 10 ** 20, -1, -1, -2, -20, -255, -65535, -65536, -(1 << 31)])
+            n = max(n, t.elements + 1) if n > 0 else n   # (a negative count is out of range whatever the array's length)
             v = [logixreq.gen_value_for(t.dtype, rng, overlong_strings=False) for _ in range(3)]
             return Bad(f"{t.full_name}{{{n}}}", c, v)
         if c == "count-out-of-range" and t.dims and t.dtype.name != "DWORD" and t.dtype.size * (t.elements + 3) < 9000:
@@ -277,6 +277,9 @@ def run(ctx):
                         continue
                     # VALID request: must be unaffected by its neighbours
                     if not t:
+                        li_ = sc.drv.tags.get(it.tag.full_name) or {}
+                        w2 = dict(w2, reference_type=f"{it.tag.dtype.name} ({it.tag.dtype.kind}) dims {list(it.tag.dims)} instance {it.tag.instance_id} kind {it.tag.kind}",
+                                  uploaded_type=f"{li_.get('data_type_name')!r} ({li_.get('tag_type')}) dim {li_.get('dim')} instance {li_.get('instance_id')}")
                         res.violation(f"valid-request-fails-in-mixed-call:{op}:{classes[0] if classes else 'all-valid'}",
                                       f"{op} request {it.text!r} is valid but failed in a call of {n} (invalid classes {classes}, positions {pos}): {t!r:.200}", w2)
                         continue
